@@ -158,6 +158,7 @@ let eval inp obs =
   (* ---- the model *)
   let mlog_toks = ref [] in
   let mpres = ref [] in
+  let dead = ref false in
   let push t = mlog_toks := t :: !mlog_toks in
   let hop_of o = (match o with
     | ["O"; n] -> Some (HOpen (n_of_tok n))
@@ -171,6 +172,9 @@ let eval inp obs =
       Some (HFlush (bytes_of_hex id, os))
     | _ -> None) in
   let flush_ids = List.filter_map (fun o -> match o with ["F"; id] -> Some id | _ -> None) ops in
+  (* after a refused restart (Rerr) the rest of the history is not executed *)
+  let rec take n l = if n <= 0 then [] else match l with [] -> [] | x :: t -> x :: take (n - 1) t in
+  let flush_ids = take (List.length (List.filter (fun t -> t = "f") ilog)) flush_ids in
   (* flagged producer with two equal consecutive flush IDs: the reported flush may be the one in
      progress (theorem C25_flagged_crash_consistent_any_ids); otherwise it completed at or before k *)
   let nfl = List.length flush_ids in
@@ -182,7 +186,14 @@ let eval inp obs =
   let mlog, mrecs =
     if mode = "pool" then begin
       let st = ref run_init in
-      List.iter (fun o -> match hop_of o with
+      List.iter (fun o -> if !dead then () else if o = ["R"] then begin
+          let before = List.length !st.rs_log in
+          let w = crash !st.rs_log (nat_of_int before) in
+          let order = List.sort (fun a b -> Z.compare (z_of_n a) (z_of_n b)) (List.map fst w) in
+          (match restart_pool fk !st (nat_of_int before) order with
+           | Some s' -> st := s'; push "R"; List.iter (fun d -> push (tok_of_dop d)) (drop before s'.rs_log)
+           | None -> dead := true; push "Rerr")
+        end else match hop_of o with
         | None -> ()
         | Some hp ->
           let before = List.length !st.rs_log in
@@ -195,7 +206,14 @@ let eval inp obs =
       !st.rs_log, !st.rs_recs
     end else begin
       let st = ref frun_init in
-      List.iter (fun o -> match hop_of o with
+      List.iter (fun o -> if !dead then () else if o = ["R"] then begin
+          let before = List.length !st.fr_log in
+          let w = crash !st.fr_log (nat_of_int before) in
+          let order = List.sort (fun a b -> Z.compare (z_of_n a) (z_of_n b)) (List.map fst w) in
+          (match restart_flagged fk !st (nat_of_int before) order with
+           | Some s' -> st := s'; push "R"; List.iter (fun d -> push (tok_of_dop d)) (drop before s'.fr_log)
+           | None -> dead := true; push "Rerr")
+        end else match hop_of o with
         | None -> ()
         | Some hp ->
           let before = List.length !st.fr_log in
@@ -236,13 +254,13 @@ let eval inp obs =
   let mpres = List.rev !mpres in
   let model_obs = ("LOG" :: List.rev !mlog_toks) @ [";"; "V"] @ mverd @ [";"; "S"] @ msnaps @ [";"; "Q"] @ mpres @ [";"; "X"] @ mxverd @ [";"; "R1"] in
   (* ---- the property on the implementation's data *)
-  let idur = List.filter (fun t -> t <> "F" && t <> "f" && t <> "ferr") ilog in
+  let idur = List.filter (fun t -> t <> "F" && t <> "f" && t <> "ferr" && t <> "R" && t <> "Rerr") ilog in
   let spec_ok, why = (try
     let ilog_d = List.map dop_of_tok idur in
     (* completion positions = number of durable operations before each f marker *)
     let pos = ref [] and cnt = ref 0 in
     List.iter (fun t -> if t = "f" then pos := !cnt :: !pos
-                        else if t <> "F" && t <> "ferr" then incr cnt) ilog;
+                        else if t <> "F" && t <> "ferr" && t <> "R" && t <> "Rerr" then incr cnt) ilog;
     let pos = List.rev !pos in
     if List.mem "ferr" ilog then false, "Flush returned an error"
     else if List.length pos <> List.length flush_ids || List.length isnaps <> List.length pos
